@@ -471,30 +471,38 @@ def rule_lookahead(ctx, f):
 
 
 def rule_eof_token(ctx, f, rule="C03-G4"):
-    ctx.rule(rule, "a token that runs up to the end of the buffer is a token: inside the scanning loops of Lexer::next_word the failure of the "
-             "bounded advance ends the loop and is never handed on as the error of the read")
-    b = f.body("parser::lexer::Lexer::<'a>::next_word")
-    if b is None:
+    ctx.rule(rule, "a token that runs up to the end of the buffer is a token: inside the scanning loops of the lexer (Lexer::next_word and the private "
+             "helpers it calls) the failure of the bounded advance ends the loop and is never handed on as the error of the read")
+    nw = f.body("parser::lexer::Lexer::<'a>::next_word")
+    if nw is None:
         ctx.lost(rule, "Lexer::next_word")
         return
-    cfg = CFG(b)
-    fl = Flow(b)
-    loops = cfg.loops()
-    adv = [(bi, t) for bi, t in F.calls(b) if t.get("resolved_local") and b["locals"][t["dest"][0]]["s"].startswith("std::result::Result<usize")
-           and any(bi in body and any(x in body and last_seg(F.callee_name(tt)) in ("is_delimiter", "is_whitespace", "is_regular") for x, tt in F.calls(b))
-                   for body in loops.values())]
-    ctx.floor(rule, len(adv), 2, "bounded advances inside the scanning loops of next_word (name, regular token)")
-    resid = [(bi, t) for bi, t in F.calls(b) if last_seg(F.callee_name(t)) == "from_residual"]
-    for k, (bi, t) in enumerate(sorted(adv)):
-        handed_on = False
-        for rb, rt in resid:
-            l = F.op_local(rt["args"][0])
-            if l is not None and any(a[0] == "call" and a[2] == bi for a in fl.origins(l, passthrough=("branch",))):
-                handed_on = True
-        # written as a match: the Err arm must not reach an Err return without leaving through the Ok construction
-        ctx.check(not handed_on, rule, "next_word#loop-advance@%d" % k, "the end of the buffer inside a token is returned as an error (`?` on the bounded advance in a "
-                  "scanning loop): a name or number that is the last thing in the buffer - the last member of an object stream, `parse(b\"/Name\")` - cannot be read",
-                  t["span"], detail="Err(_) => break")
+    # next_word and the Lexer methods it calls (an extracted `scan to the end of the run` helper)
+    bodies = [nw]
+    for bi, t in F.calls(nw):
+        cb = f.bodies.get(t.get("resolved") or "")
+        if cb is not None and t.get("resolved_local") and cb["id"].startswith("parser::lexer::Lexer::") and cb not in bodies:
+            bodies.append(cb)
+    n = 0
+    for b in bodies:
+        cfg = CFG(b)
+        fl = Flow(b)
+        loops = cfg.loops()
+        adv = [(bi, t) for bi, t in F.calls(b) if t.get("resolved_local") and t.get("dest") and b["locals"][t["dest"][0]]["s"].startswith("std::result::Result<usize")
+               and any(bi in body and any(x in body and last_seg(F.callee_name(tt)) in ("is_delimiter", "is_whitespace", "is_regular") for x, tt in F.calls(b))
+                       for body in loops.values())]
+        resid = [(bi, t) for bi, t in F.calls(b) if last_seg(F.callee_name(t)) == "from_residual"]
+        for k, (bi, t) in enumerate(sorted(adv)):
+            n += 1
+            handed_on = False
+            for rb, rt in resid:
+                l = F.op_local(rt["args"][0])
+                if l is not None and any(a[0] == "call" and a[2] == bi for a in fl.origins(l, passthrough=("branch",))):
+                    handed_on = True
+            ctx.check(not handed_on, rule, "%s#loop-advance@%d" % (b["id"].split("::")[-1], k), "the end of the buffer inside a token is returned as an error (`?` on the bounded "
+                      "advance in a scanning loop): a name or number that is the last thing in the buffer - the last member of an object stream, `parse(b\"/Name\")` - cannot be read",
+                      t["span"], detail="Err(_) => break")
+    ctx.floor(rule, n, 1, "bounded advances inside the token-scanning loops of the lexer")
 
 
 def rule_consumption(ctx, f):
